@@ -135,3 +135,81 @@ fn c19_unknown_attributes_clone_mutate() {
     std::mem::forget(b);
 }
 
+
+// ------------------------------------------------------------------ more constructors / accessors
+#[kani::proof]
+#[kani::unwind(6)]
+#[kani::stub(alloc::fmt::format, nofmt)]
+fn c19_algorithm_values() {
+    let v: u16 = kani::any();
+    let id = AlgorithmId::from(v);
+    let p: [u8; 3] = kani::any();
+    let n: usize = kani::any();
+    kani::assume(n <= 3);
+    let a = if n == 0 { Algorithm::from(id) } else { Algorithm::new(id, &p[..n]) };
+    assert!(u16::from(a.algorithm()) == v);
+    match a.parameters() {
+        None => assert!(n == 0),
+        Some(x) => assert!(x.len() == n && n > 0 && x[0] == p[0]),
+    }
+    // clone independence: the parameters of a clone are the same bytes, the original is unaffected by dropping the clone
+    let b = a.clone();
+    assert!(b == a);
+    drop(b);
+    assert!(a.parameters().map_or(0, |x| x.len()) == n);
+    let pa = PasswordAlgorithm::new(a.clone());
+    assert!(u16::from(pa.algorithm()) == v && pa.parameters().map_or(0, |x| x.len()) == n);
+    std::mem::forget(pa);
+    std::mem::forget(a);
+}
+
+#[kani::proof]
+#[kani::unwind(14)]
+#[kani::stub(alloc::fmt::format, nofmt)]
+fn c19_transaction_id_and_cookie() {
+    let b: [u8; 12] = kani::any();
+    let t = TransactionId::from(b);
+    let j: usize = kani::any();
+    kani::assume(j < 12);
+    assert!(t.as_bytes()[j] == b[j]);
+    let r: &[u8] = t.as_ref();
+    assert!(r.len() == 12 && r[j] == b[j]);
+    let t2 = TransactionId::from(&b);
+    assert!(t == t2);
+    let c: [u8; 4] = kani::any();
+    let is_cookie = c == [0x21, 0x12, 0xa4, 0x42];
+    assert!((MAGIC_COOKIE == c) == is_cookie);
+    assert!((c == MAGIC_COOKIE) == is_cookie);
+    assert!(MAGIC_COOKIE.as_u32() == 0x2112_a442);
+}
+
+#[kani::proof]
+#[kani::unwind(6)]
+#[kani::stub(alloc::fmt::format, nofmt)]
+#[kani::stub(<crate::types::TransactionId as std::default::Default>::default, tid_any)]
+fn c19_message_builder_accessors() {
+    use crate::attributes::stun::Fingerprint;
+    let m: u16 = kani::any();
+    kani::assume(m <= 0x0fff);
+    let method = match MessageMethod::try_from(m) {
+        Ok(x) => x,
+        Err(_) => return,
+    };
+    let tid: [u8; 12] = kani::any();
+    let with_fp: bool = kani::any();
+    let mut b = StunMessageBuilder::new(method, MessageClass::Indication).with_transaction_id(TransactionId::from(tid));
+    if with_fp {
+        b = b.with_attribute(Fingerprint::default());
+    }
+    let msg = b.build();
+    assert!(msg.method().as_u16() == m && msg.class() == MessageClass::Indication);
+    assert!(msg.attributes().len() == with_fp as usize);
+    assert!(msg.get::<Fingerprint>().is_some() == with_fp);
+    assert!(msg.get::<crate::attributes::stun::Software>().is_none());
+    if with_fp {
+        let a = &msg.attributes()[0];
+        assert!(a.is_fingerprint() && !a.is_software());
+        assert!(a.as_fingerprint().is_ok() && a.as_software().is_err(), "C19: as_* reports a mismatch through a Result");
+    }
+    std::mem::forget(msg);
+}
